@@ -120,3 +120,60 @@ PROPS["C15"] = dict(
     assumptions=["zero-one principle: a data-oblivious comparator network that sorts all 0/1 inputs sorts "
                  "every input (obliviousness itself is monitored by mode=obl)", SAN_ASSUME],
 )
+
+# ----------------------------------------------------------------------------- C14
+def _c14_post(res, scratch, tier, seed0):
+    from oracle import c14_oracle
+    n, per, bad = c14_oracle.check_logs(scratch)
+    res.counters["oracle_records_checked"] = n
+    for k, v in per.items():
+        res.counters["oracle_records:" + k] = v
+    if n != res.counters.get("records_logged", 0):
+        # workers that died lose their counter, never the other way round
+        if n < res.counters.get("records_logged", 0):
+            res.inconclusive.append("python oracle saw %d records, harness logged %d"
+                                    % (n, res.counters.get("records_logged", 0)))
+    seen = set()
+    for key, detail in bad:
+        res.violations.append(dict(key=key, detail=detail, seed=seed0, index=0, run=-1,
+                                   unit="digest", variant="asan", args=["mode=len"]))
+
+
+_DIGEST_TLX = ["tlx/digest/md5.cpp", "tlx/digest/sha1.cpp", "tlx/digest/sha256.cpp",
+               "tlx/digest/sha512.cpp", "tlx/string/hexdump.cpp"]
+PROPS["C14"] = dict(
+    units={"digest": dict(src=["harness/C14_digest.cpp"], tlx=_DIGEST_TLX,
+                          flags=["-fno-sanitize=alignment"])},
+    quick=[
+        R("digest", "asan", 16, 1101, ["mode=len", "splits_upto=260"], partition=True),
+        R("digest", "plain", 16, 1101, ["mode=len", "splits_upto=1100"], partition=True),
+        R("digest", "asan", 4, 2, ["mode=long", "maxlen=1500000"]),
+        R("digest", "asan", 8, 6, ["mode=sip"]),
+    ],
+    thorough=[
+        R("digest", "asan", 16, 1101, ["mode=len", "splits_upto=1100"], partition=True, timeout=7200),
+        R("digest", "plain", 16, 1101, ["mode=len", "splits_upto=1100"], partition=True),
+        R("digest", "asan", 16, 12, ["mode=long", "maxlen=12000000"], timeout=7200),
+        R("digest", "asan", 16, 300, ["mode=sip"], timeout=7200),
+    ],
+    post=[_c14_post],
+    rule="len: one case per message length 0..1100 (random, all-00 and all-ff content) through all four "
+         "digest classes: every two-call split position (up to splits_upto, sampled beyond), 1-byte "
+         "calls, chunks of block-1/block/block+1, random partitions with empty chunks, short-then-"
+         "crossing chunks, both process() overloads, constructors, finalize(), hex helpers -- every "
+         "chunking must equal the single-call digest, which python hashlib recomputes from the log. "
+         "long: 0.1-12 MB repeated-pattern messages with lengths around block boundaries. sip: per key "
+         "(3 special + random) lengths 0..129 x buffer offsets 0..15, plain vs SSE2 vs dispatcher, value "
+         "recomputed by an independent SipHash-2-4. Classes: message length (len), length class (long), "
+         "key class (sip).",
+    exhaustive=dict(quick="every message length 0..1100 for all four digests; every two-call split for "
+                          "every length (uninstrumented build) / for lengths <= 260 (ASan build)",
+                    thorough="every message length 0..1100, every two-call split, in both builds"),
+    require=dict(any=["lengths_covered", "oracle_records_checked", "siphash_evaluations",
+                      "all_two_call_splits:sha512"]),
+    assumptions=["python hashlib (OpenSSL) implements MD5/SHA-1/SHA-256/SHA-512 correctly",
+                 "oracle/c14_oracle.py's SipHash-2-4 is written from the paper and self-tested on the "
+                 "paper's vectors before every use",
+                 "UBSan alignment check disabled: SipHash reads unaligned 64-bit words by design (x86)",
+                 SAN_ASSUME],
+)
